@@ -21,3 +21,39 @@ struct MJ {
 KFN int k_resolve_c(const char* tok, unsigned long n) { MJ j; std::error_code ec; jsonpointer::detail::resolve<MJ>((const MJ*)&j, jsoncons::string_view(tok, n), ec); return ec.value(); }
 KFN int k_resolve_m(const char* tok, unsigned long n, int create) { MJ j; std::error_code ec; jsonpointer::detail::resolve<MJ>(&j, jsoncons::string_view(tok, n), create != 0, ec); return ec.value(); }
 KFN unsigned long k_escape(const char* s, unsigned long n, char* buf, unsigned long cap) { fsink k{buf, 0, cap}; jsoncons::string_view sv(s, n); jsonpointer::escape(sv, k); return k.n; }
+// ---- K14.4: the final step of add / add_if_absent / replace / remove on a one-token pointer, with a model Json that records every edit
+extern "C" { void mj_op(unsigned kind, unsigned long index, const char* key, unsigned long keylen); }
+enum { OP_APPEND = 1, OP_INSERT, OP_ERASE_AT, OP_ASSIGN_AT, OP_INSERT_OR_ASSIGN, OP_ERASE_KEY, OP_TRY_EMPLACE };
+struct MJ2 {
+    using char_type = char; using string_view_type = jsoncons::string_view; using string_type = std::string;
+    unsigned long last_at;
+    bool is_array() const { return mj_kind == 1; }
+    bool is_object() const { return mj_kind == 2; }
+    std::size_t size() const { return mj_size; }
+    struct ait { MJ2* j; unsigned long i; ait operator+(std::size_t k) const { return ait{j, i + k}; } MJ2& operator*() const { return *j; } };
+    struct arange { MJ2* j; ait begin() const { return ait{j, 0}; } ait end() const { return ait{j, j->size()}; } };
+    arange array_range() { return arange{this}; }
+    template <class V> MJ2& emplace_back(V&&) { mj_op(OP_APPEND, mj_size, nullptr, 0); mj_size++; return *this; }
+    template <class V> ait insert(ait pos, V&&) { mj_op(OP_INSERT, pos.i, nullptr, 0); mj_size++; return pos; }
+    void erase(ait pos) { mj_op(OP_ERASE_AT, pos.i, nullptr, 0); }
+    void erase(const string_view_type& k) { mj_op(OP_ERASE_KEY, 0, k.data(), k.size()); }
+    MJ2& at(std::size_t i) { mj_at_index(i); last_at = i; return *this; }
+    const MJ2& at(std::size_t i) const { mj_at_index(i); return *this; }
+    MJ2& at(const string_view_type& k) { mj_at_key(k.data(), k.size()); return *this; }
+    const MJ2& at(const string_view_type& k) const { mj_at_key(k.data(), k.size()); return *this; }
+    MJ2& operator=(int) { mj_op(OP_ASSIGN_AT, last_at, nullptr, 0); return *this; }
+    bool contains(const string_view_type&) const { return mj_has_key != 0; }
+    struct kv { MJ2* v; MJ2& value() { return *v; } };
+    template <class V> std::pair<kv*, bool> insert_or_assign(const string_view_type& k, V&&) { mj_op(OP_INSERT_OR_ASSIGN, 0, k.data(), k.size()); static kv e; e.v = this; return {&e, true}; }
+    template <class V> std::pair<kv*, bool> try_emplace(const string_view_type& k, V&&) { mj_op(OP_TRY_EMPLACE, 0, k.data(), k.size()); static kv e; e.v = this; return {&e, true}; }
+};
+// which: 0 add, 1 add_if_absent, 2 replace, 3 remove
+KFN int k_edit1(unsigned which, const char* tok, unsigned long n, int create) {
+    MJ2 j; j.last_at = 0; std::error_code ec;
+    jsonpointer::json_pointer p; p.tokens_.reserve(2); p.tokens_.emplace_back(tok, n);
+    if (which == 0) jsonpointer::add(j, p, 7, create != 0, ec);
+    else if (which == 1) jsonpointer::add_if_absent(j, p, 7, create != 0, ec);
+    else if (which == 2) jsonpointer::replace(j, p, 7, create != 0, ec);
+    else jsonpointer::remove(j, p, ec);
+    return ec.value();
+}
